@@ -107,6 +107,43 @@ func clockSeq(r *vfh.Rand, epoch int64, deadlines []int64, n int) []int64 {
 	return pts
 }
 
+// stepClock is the injected TimeNow: while the plugin is applied for reading i it returns
+// ts[i] on the first call and advances by step on every further call (never beyond the next
+// reading), so that an implementation which reads the clock more than once per RA is exercised
+// with a clock that moves between its reads. It stays a non-decreasing clock.
+type stepClock struct {
+	ts    []int64
+	step  int64
+	i     int
+	reads int
+}
+
+func newStepClock(r *vfh.Rand, ts []int64) *stepClock {
+	c := &stepClock{ts: ts}
+	switch r.Intn(8) {
+	case 0:
+		c.step = 1
+	case 1:
+		c.step = int64(400 * time.Millisecond)
+	case 2:
+		c.step = int64(time.Second)
+	case 3:
+		c.step = r.Range(1, int64(2*time.Second))
+	}
+	return c
+}
+
+func (c *stepClock) at(i int) { c.i, c.reads = i, 0 }
+
+func (c *stepClock) now() time.Time {
+	v := c.ts[c.i] + int64(c.reads)*c.step
+	if c.i+1 < len(c.ts) && v > c.ts[c.i+1] {
+		v = c.ts[c.i+1]
+	}
+	c.reads++
+	return time.Unix(0, v)
+}
+
 func verifC16(t *testing.T, r *vfh.Rand, out *vfh.Out) {
 	n := vfh.N(5000, 300000)
 	for k := 0; k < n; k++ {
@@ -121,7 +158,7 @@ func verifC16(t *testing.T, r *vfh.Rand, out *vfh.Out) {
 				P = time.Duration(r.Range(1, int64(V)))
 			}
 			ts := clockSeq(r, e, []int64{e + int64(V), e + int64(P)}, 2+r.Intn(7))
-			var now time.Time
+			clk := newStepClock(r, ts)
 			p := &Prefix{
 				Prefix:            netip.MustParsePrefix("2001:db8::/64"),
 				OnLink:            r.Bool(),
@@ -130,44 +167,44 @@ func verifC16(t *testing.T, r *vfh.Rand, out *vfh.Out) {
 				PreferredLifetime: P,
 				Deprecated:        dep,
 				Epoch:             epoch,
-				TimeNow:           func() time.Time { return now },
+				TimeNow:           clk.now,
 			}
-			c := new(vfh.Toks).S("pl").B(dep).I(e).I(int64(V)).I(int64(P)).N(len(ts))
+			c := new(vfh.Toks).S("pl").B(dep).I(e).I(int64(V)).I(int64(P)).I(clk.step).N(len(ts))
 			impl := new(vfh.Toks)
-			for _, ti := range ts {
+			for i, ti := range ts {
 				c.I(ti)
-				now = time.Unix(0, ti)
+				clk.at(i)
 				ra := &ndp.RouterAdvertisement{}
 				if err := p.Apply(ra); err != nil || len(ra.Options) != 1 {
 					t.Fatalf("Prefix.Apply: %v (%d options)", err, len(ra.Options))
 				}
 				pi := ra.Options[0].(*ndp.PrefixInformation)
-				impl.I(int64(pi.ValidLifetime)).I(int64(pi.PreferredLifetime))
+				impl.I(int64(pi.ValidLifetime)).I(int64(pi.PreferredLifetime)).N(clk.reads)
 			}
 			out.Line(c.String(), impl.String())
 		} else {
 			L := genLifetime(r)
 			ts := clockSeq(r, e, []int64{e + int64(L)}, 2+r.Intn(7))
-			var now time.Time
+			clk := newStepClock(r, ts)
 			rt := &Route{
 				Prefix:     netip.MustParsePrefix("2001:db8:1::/48"),
 				Preference: ndp.Medium,
 				Lifetime:   L,
 				Deprecated: dep,
 				Epoch:      epoch,
-				TimeNow:    func() time.Time { return now },
+				TimeNow:    clk.now,
 			}
-			c := new(vfh.Toks).S("rl").B(dep).I(e).I(int64(L)).N(len(ts))
+			c := new(vfh.Toks).S("rl").B(dep).I(e).I(int64(L)).I(clk.step).N(len(ts))
 			impl := new(vfh.Toks)
-			for _, ti := range ts {
+			for i, ti := range ts {
 				c.I(ti)
-				now = time.Unix(0, ti)
+				clk.at(i)
 				ra := &ndp.RouterAdvertisement{}
 				if err := rt.Apply(ra); err != nil || len(ra.Options) != 1 {
 					t.Fatalf("Route.Apply: %v (%d options)", err, len(ra.Options))
 				}
 				ri := ra.Options[0].(*ndp.RouteInformation)
-				impl.I(int64(ri.RouteLifetime))
+				impl.I(int64(ri.RouteLifetime)).N(clk.reads)
 			}
 			out.Line(c.String(), impl.String())
 		}
